@@ -2,7 +2,7 @@
    [OpTable] is regenerated from grammar.lalrpop / lexer.rs / primop.rs / pretty.rs on every run. *)
 From Coq Require Import String List ZArith QArith Bool.
 From NV Require Import Surface.Ast Surface.Indent Surface.Print Surface.Parse Surface.TableWf
-  Surface.RoundTrip Surface.Examples Surface.Refuted Gen.OpTable.
+  Surface.RoundTrip Surface.Multiline Surface.Examples Surface.Refuted Gen.OpTable.
 Import ListNotations.
 Open Scope string_scope.
 
@@ -36,6 +36,15 @@ Qed.
 (* the hypothesis is satisfiable by a non-trivial program *)
 Theorem C14_core_nonvacuous : core infix_ops repaired_code ex_core.
 Proof. exact ex_core_in_fragment. Qed.
+
+(* the number of percent signs the printer chooses for a multiline string (nb_percent, from
+   min_interpolate_sign) makes the lexer's multiline mode (Multiline.lex, the automaton of
+   lexer.rs) read the printed characters back as exactly the chunks: literal text as literals,
+   interpolations as interpolations, the closing delimiter as the end *)
+Theorem C14_multiline_delim_safe :
+  forall cs : list chunk, no_adjacent_lits cs ->
+    lex (S (nb_percent cs)) (render (nb_percent cs) cs) DStart = expected cs.
+Proof. exact multiline_delim_safe. Qed.
 
 (* ---- refuted statements about the pinned printer/parser (one flag each), with their witnesses *)
 
